@@ -85,7 +85,7 @@ AlphaCsM == AlphaOf([Mutation |-> {"mcs", "m3", "m1"}, T |-> {"csn", "s"}])
 OKindsRaise == {[o |-> "raise"]}
 VarValsSmall == [ v |-> {Bool(TRUE), Bool(FALSE)}, w |-> {Bool(FALSE)}, n |-> {Int(3)}, m |-> {Int(4)}, x |-> {Str("xs")}, y |-> {Int(5)} ]
 AlphaSub == AlphaOf([Subscription |-> {"ev", "evs"}, T |-> {"s", "sn"}])
-AlphaSub3 == AlphaOf([Subscription |-> {"ev"}, T |-> {"sn"}])
+AlphaSub3 == AlphaOf([Subscription |-> {"ev", "evn"}, T |-> {"sn"}])
 AlphaSub2 == AlphaOf([Subscription |-> {"ev"}, T |-> {"s", "o"}])
 ArgOptsSub == [ f |-> {<<>>}, g |-> {<<>>}, ev |-> {<<>>, <<ArgV("a", Lit("var", "m"))>>, <<ArgV("b", Lit("str", "q")), ArgV("a", Lit("int", 1))>>,
                                                    <<ArgV("b", Lit("var", "x")), ArgV("a", Lit("var", "y"))>>} ]
